@@ -50,6 +50,10 @@ def _child_loop(check, env, conn, dumpfile, timeout):
     except OSError:
         dump = None
     signal.signal(signal.SIGTERM, signal.SIG_DFL)
+    try:
+        os.setpgid(0, 0)  # own process group: worker processes started by the code under test die with this child
+    except OSError:
+        pass
     while True:
         try:
             msg = conn.recv()
@@ -133,6 +137,12 @@ class Sandbox:
     def _kill(self):
         if self.proc is not None:
             try:
+                pid = self.proc.pid
+                try:
+                    if pid and os.getpgid(pid) == pid:
+                        os.killpg(pid, signal.SIGKILL)  # the child and whatever it started
+                except OSError:
+                    pass
                 self.proc.kill()
                 self.proc.join(5)
             except Exception:
